@@ -124,6 +124,9 @@ class Model:
                 ev.append(Ev("write", str(bufsym[0]), norm(lo), norm(ln), c.loops, c.guards, c.line, c.node["id"], cal, value=val)); ev[-1].seq = c.seq + 0.5
                 if cal == "std::copy_n":
                     ev.append(Ev("read-src", str(c.args[0]), None, norm(ln), c.loops, c.guards, c.line, c.node["id"], "copy source", value=c.args[0])); ev[-1].seq = c.seq + 0.25
+            elif cal == "std::transform" and len(c.args) == 5 and any(getattr(a_, "from_bulk", None) is c.node and a_.kind == "store" for a_ in s.accesses):
+                pass        # binary transform (two arrays combined element by element): the scanner has rewritten the call into the element
+                            # loads and stores it performs (see the accesses below); the range model below is for the unary form
             elif cal == "std::transform" and len(c.args) >= 4 and c.args[0] is not None and c.args[1] is not None and c.args[-2] is not None:
                 # std::transform(first, last, dst, f): writes last-first values f(x) to dst -- not the values themselves
                 dst = c.args[-2]
@@ -161,9 +164,12 @@ class Model:
                 ev.append(Ev("execute", plan, None, None, c.loops, c.guards, c.line, c.node["id"], plan=plan)); ev[-1].seq = c.seq
             elif cal.startswith("vfps::ElectricField::") and cal.split("::")[-1] in getattr(self, "ops", self.OPS):
                 ev.append(Ev("call", cal.split("::")[-1], None, None, c.loops, c.guards, c.line, c.node["id"])); ev[-1].seq = c.seq
+        unary_tr = {c.node["id"] for c in s.calls if (c.callee or "") == "std::transform" and len(c.args) == 4}
         for a in s.accesses:
             if a.idx is None or not a.base.startswith("_"):
                 continue
+            if getattr(a, "from_bulk", None) is not None and a.from_bulk.get("id") in unary_tr:
+                continue            # unary transform: represented by its range events above
             if a.kind == "store":
                 ev.append(Ev("write", a.base, tuple(a.idx), sp.Integer(1), a.loops, a.guards, a.line, a.node["id"], a.op, value=a.value)); ev[-1].seq = a.seq
             else:
